@@ -248,6 +248,12 @@ class ReleaserInit(Spec):
         s, e, rev = t["start_time"], t["stop_time"], t["time_reversal"]
         return lambda r: z3.If(rev, z3.And(e <= row_time(r), row_time(r) <= s), z3.And(s <= row_time(r), row_time(r) <= e))
 
+    def window_strict(self, a):
+        """the simulated window of C04: start inclusive, stop exclusive"""
+        t = a.modules["time"].attrs
+        s, e, rev = t["start_time"], t["stop_time"], t["time_reversal"]
+        return lambda r: z3.If(rev, z3.And(e < row_time(r), row_time(r) <= s), z3.And(s <= row_time(r), row_time(r) < e))
+
     may_raise = ("SystemExit",)
 
     def model(self, cx, a):
@@ -263,7 +269,9 @@ class ReleaserInit(Spec):
             return [("the release table is kept", False)]
         r = z3.Int("row_any")
         win = self.window(a)
-        out.append(("C04: exactly the rows whose release time lies in the simulated window are kept (start and stop inclusive here; the time loop never reaches stop)", z3.Implies(z3.And(r >= 0, r < nrows), V.to_z3(df.pred(r)) == win(r))))
+        strict = self.window_strict(a)
+        out.append(("C04: every row whose release time lies in the simulated window (start inclusive, stop exclusive) is kept", z3.Implies(z3.And(r >= 0, r < nrows, strict(r)), V.to_z3(df.pred(r)))))
+        out.append(("C04: no row outside the window is kept (a row at exactly the stop time may be: the time loop never reaches that step)", z3.Implies(z3.And(r >= 0, r < nrows, V.to_z3(df.pred(r))), win(r))))
         out.append(("C04: a mult column exists (defaulted to 1)", "mult" in df.columns))
         out.append(("C20: a normal return means at least one row lies in the window", z3.Implies(z3.And(r >= 0, r < nrows, win(r)), z3.BoolVal(True)) if False else (df.pv_len(cx) > 0)))
         B = me.get("_B")
@@ -296,7 +304,7 @@ class ReleaserInitRefuses(ReleaserInit):
         self.name = "ParticleReleaser.__init__[no row in the window]"
 
     def requires(self, cx, a):
-        win = self.window(a)
+        win = self.window_strict(a)  # C04: the window is start inclusive, stop exclusive
         cx.univ.append(UnivFact(1, lambda r: z3.Implies(z3.And(r >= 0, r < nrows), z3.Not(win(r))), decls=[row_time_decl]))
         return []
 
